@@ -8,7 +8,7 @@ from collections import Counter
 import asyncstdlib as A
 
 from ..loop import CTX, Driver, Suspend, rr_strategy, drive
-from ..probes import VLock
+from ..probes import VLock, PLANNED, PLANNED_NAMES, Planned
 from ..sched import explore
 
 ID = "C12"
@@ -45,10 +45,12 @@ def cases(tier, seed, shard, nshards):
         for ops in itertools.product(SEQ_OPS, repeat=n):
             idx += 1
             if idx % nshards == shard:
-                yield {"kind": "seq", "ops": list(ops), "lock": (idx // nshards) % 2 == 0}
+                yield {"kind": "seq", "ops": list(ops), "lock": (idx // nshards) % 2 == 0,
+                       "exc": PLANNED_NAMES[(idx // (2 * nshards)) % len(PLANNED_NAMES)]}
     rng = random.Random(f"C12-{seed}-{shard}")
     for _ in range(N_SEQ_RANDOM[tier] // nshards):
-        yield {"kind": "seq", "ops": [rng.choice(SEQ_OPS) for _ in range(rng.randint(6, 15))], "lock": rng.random() < 0.5}
+        yield {"kind": "seq", "ops": [rng.choice(SEQ_OPS) for _ in range(rng.randint(6, 15))], "lock": rng.random() < 0.5,
+               "exc": rng.choice(PLANNED_NAMES)}
     n = max(1, N_SCEN[tier] // nshards)
     for i in range(n):
         mode = ["dfs", "random", "pct", "dfs"][i % 4]
@@ -62,11 +64,12 @@ def cases(tier, seed, shard, nshards):
                "deleter": rng.choice([None, None, 0, 1, 2, 3]) if mode != "dfs" else rng.choice([None, None, 0, 1]),
                "cancel_task": rng.randrange(nt) if rng.random() < 0.4 else None,
                "lock_susp": rng.choice([[0, 0], [0, 0], [1, 0], [0, 1]]),
-               "runs": DFS_LIMIT[tier] if mode == "dfs" else RANDOM_RUNS[tier], "seed": rng.randrange(1 << 30)}
+               "runs": DFS_LIMIT[tier] if mode == "dfs" else RANDOM_RUNS[tier], "seed": rng.randrange(1 << 30),
+               "exc": rng.choice(PLANNED_NAMES)}
 
 
-class Planned(Exception):
-    pass
+def _planned(case):
+    return PLANNED[case.get("exc", "Exception")]
 
 
 # ---------------------------------------------------------------------------
@@ -82,7 +85,7 @@ def run_seq(case, stats):
         rid = state["runs"]
         if state["fail"]:
             state["fail"] = False
-            raise Planned(rid)
+            raise _planned(case)(rid)
         return ("val", self.tag, rid)
 
     if case["lock"]:
@@ -215,7 +218,7 @@ def execute(case, choose, cancel_at=None):
             await Suspend(("getter", rid), case["susp"])
             if rid in fail:
                 runs[rid].update(end=tick(), outcome="failed")
-                raise Planned(rid)
+                raise _planned(case)(rid)
             value = ("val", rid)
             runs[rid].update(end=tick(), outcome="ok", value=value)
             return value
